@@ -10,8 +10,18 @@ from ginverif import core
 _N = [0]
 
 MOD_SRC = '''
+import functools
+
 def fn(x=0, y=0):
   return ('fn', x, y)
+
+def _traced(f):
+  @functools.wraps(f)
+  def wrapper(*args, **kwargs):
+    return ('traced',) + tuple(f(*args, **kwargs))
+  return wrapper
+
+traced_fn = _traced(fn)        # another object, whose __wrapped__ chain reaches fn
 
 class Cls:
   def __init__(self, x=0):
@@ -97,9 +107,9 @@ class Case:
       elif s['t'] == 'import':
         mod = [self.name(c) for c in s['module']]
         if s['form'] in ('plain', 'as'):
-          lines.append('import ' + '.'.join(mod) + (' as ' + s['alias'] if s['alias'] else ''))
+          lines.append('import ' + '.'.join(mod) + (' as ' + self.name(s['alias']) if s['alias'] else ''))
         else:
-          lines.append('from %s import %s' % ('.'.join(mod[:-1]), mod[-1]) + (' as ' + s['alias'] if s['alias'] else ''))
+          lines.append('from %s import %s' % ('.'.join(mod[:-1]), mod[-1]) + (' as ' + self.name(s['alias']) if s['alias'] else ''))
       else:
         sel = (s.get('scope', '') + '/' if s.get('scope') else '') + '.'.join(self.name(c) for c in s['sel'])
         val = repr(s['val']) if not s['ref'] else ('@' + (s.get('rscope', '') + '/' if s.get('rscope') else '') +
@@ -112,7 +122,7 @@ class Case:
     out = {}
     m = sys.modules.get(self.pk + '.mod')
     if m is not None:
-      out.update(fn=m.fn, Cls=m.Cls, meth=m.Cls.meth, Inner=m.Cls.Inner, im=m.Cls.Inner.im)
+      out.update(fn=m.fn, Cls=m.Cls, meth=m.Cls.meth, Inner=m.Cls.Inner, im=m.Cls.Inner.im, tfn=m.traced_fn)
     m5 = sys.modules.get(self.pk + '.sub.mod')
     if m5 is not None:
       out['fn5'] = m5.fn
